@@ -215,6 +215,56 @@ def r14_impl_trait_args(sig):
         hits += 1
 
 
+def splice_closure_specs(body, specs):
+    """Closure contracts (the analogue of loop invariants): the n-th closure literal `|p| EXPR` that is an argument
+    of a call becomes `|p: T| -> (r: R) requires .. ensures .. { EXPR }` - parameter types, the named return and
+    the contract come from the sidecar; the closure body text is unchanged.  specs: {ordinal: dict(params, ret, ensures, requires)}"""
+    if not specs:
+        return body, 0
+    toks, match = _toks(body)
+    found = []
+    for i, t in enumerate(toks):
+        if t.text in ("|", "||") and i > 0 and toks[i - 1].text in ("(", ","):
+            if t.text == "||":
+                pend = i
+            else:
+                pend = i + 1
+                while pend < len(toks) and toks[pend].text != "|":
+                    pend += 1
+            # body: block or expression up to the enclosing ')' / ',' at depth 0
+            b0 = pend + 1
+            if toks[b0].text == "{":
+                b1 = match[b0]
+            else:
+                k = b0
+                while k < len(toks):
+                    if toks[k].text in ("(", "[", "{"):
+                        k = match[k] + 1
+                        continue
+                    if toks[k].text in (")", ","):
+                        break
+                    k += 1
+                b1 = k - 1
+            found.append((i, pend, b0, b1))
+    edits = []
+    for ordinal, sp in specs.items():
+        if ordinal < 1 or ordinal > len(found):
+            raise Undecided("closure #%d not found (%d closures)" % (ordinal, len(found)))
+        i, pend, b0, b1 = found[ordinal - 1]
+        src_body = body[toks[b0].start:toks[b1].end]
+        head = "|%s| -> %s" % (sp.get("params", ""), sp["ret"])
+        if sp.get("requires"):
+            head += " requires " + sp["requires"]
+        if sp.get("ensures"):
+            head += " ensures " + sp["ensures"]
+        if toks[b0].text != "{":
+            src_body = "{ " + src_body + " }"
+        edits.append((toks[i].start, toks[b1].end, head + " " + src_body))
+    if len(found) != len(specs) and specs.get("__all__", True):
+        pass
+    return _apply(body, edits), len(edits)
+
+
 def r9_math_inc(text, names):
     """PATH += 1;  ->  PATH = verif_math_inc(PATH);   for the listed statistic counters.
     Machine arithmetic treated as mathematical for these counters (listed assumption)."""
@@ -535,6 +585,7 @@ class FnItem:
             hits["R9"] = h
         sig, body, h = r7_mut_self(sig, body)
         hits["R7"] = h
+        body, _h = splice_closure_specs(body, sp.get("closures"))
         if sp.get("impl_trait_args"):
             sig, h = r14_impl_trait_args(sig)
             hits["R14"] = h
